@@ -154,6 +154,23 @@ def gen_series(r, tier='quick', **force):
     maxpix = 100 * (len(files) - 1) + rows * cols
     if maxpix >= (1 << (bits - (1 if signed else 0))):
         bits = 16       # the labelled pixel values must be representable in BitsStored
+    bits_mix = False
+    if not signed and maxpix < 4096 and len(files) > 1 and r.random() < 0.2:
+        # files of one series that disagree on BitsStored (the output data type is decided from the
+        # first file of the sorted stack)
+        bits_mix = True
+        for f in files:
+            f['bits'] = r.choice([12, 16])
+    meta_mode = 'default'
+    if not signed and bits == 16 and not bits_mix and r.random() < 0.3:
+        # unsigned 16-bit data using the upper half of the range in some files only
+        for f in files:
+            if r.random() < 0.5:
+                f['bright'] = 40000
+        if force.get('meta_modes') and r.random() < 0.6:
+            # what `dcmstack` without --embed-meta passes to add_dcm (only for conversions that do
+            # not embed: the minimal extractor's raw pydicom values are not meant for the extension)
+            meta_mode = 'minimal'
     if acq_pat == 'partial' and len(files) > 1:
         # only some of the files say when they were acquired
         for f in r.sample(files, r.randint(1, len(files) - 1)):
@@ -161,18 +178,18 @@ def gen_series(r, tier='quick', **force):
     return {'op': 'stack', 'S': S, 'T': T, 'V': V, 'orient': oname, 'iop': list(map(float, rowc)) + list(map(float, colc)),
             'rows': rows, 'cols': cols, 'spacing': spacing, 'gap': gap, 'origin': origin,
             'ordering': ordering, 'files': files, 'patterns': patterns, 'acq': acq_pat, 'tr': tr_pat, 'pe': pe, 'shear': shear, 'hdr': hdr,
-            'bits_stored': bits, 'signed': signed}
+            'bits_stored': bits, 'signed': signed, 'meta_mode': meta_mode, 'bits_mix': bits_mix}
 
 
 def pixels_of(series, f):
     rows, cols = series['rows'], series['cols']
-    return (f['base'] + np.arange(rows * cols)).reshape(rows, cols)
+    return (f['base'] + f.get('bright', 0) + np.arange(rows * cols)).reshape(rows, cols)
 
 
 def dataset_of(series, f, **over):
     kw = dict(ipp=f['ipp'], iop=series['iop'], rows=series['rows'], cols=series['cols'],
               spacing=series['spacing'], pixels=pixels_of(series, f), meta=f['meta'],
-              bits_stored=series.get('bits_stored', 16), signed=series.get('signed', False),
+              bits_stored=f.get('bits', series.get('bits_stored', 16)), signed=series.get('signed', False),
               uid='1.2.3.%d' % f['id'])
     kw.update(over)
     return synth.make_ds(**kw)
@@ -202,6 +219,12 @@ def new_stack(series, file_order=None, meta_filter=None):
         for i in order:
             ds = dataset_of(series, files[i])
             dss[files[i]['id']] = ds
-            st.add_dcm(ds)
+            mode = series.get('meta_mode', 'default')
+            if mode == 'minimal':
+                # what `dcmstack` without --embed-meta passes: only the keys the stack itself needs
+                from dcmstack import extract
+                st.add_dcm(ds, extract.minimal_extractor(ds))
+            else:
+                st.add_dcm(ds)
             st._verif_ids[id(st._files_info[-1][0])] = files[i]['id']
     return st, dss
